@@ -22,6 +22,12 @@ CLAIMED['C19'] = dict(tech='compiler-computed layouts for a (T,C) grid + paired-
          'Index/IndexMut/iterators/ravel/fill/from_rows matched against their defining relations. Holds for every operation sequence because each mutator preserves the invariant.',
     ref='DESIGN.md §4 C19')
 
+CLAIMED['C09'] = dict(tech='guard-dominance + sibling deviance on divisions by background frequencies, relational matching of reductions and validation exits',
+    text='Static (part): every division by a background frequency is dominated by a zero test of the same value (deviance rule over 4 sites); the one- and two-step '
+         'log-odds routes share the zero convention; min/max score sum a per-row min/max over all non-wildcard columns with the natural order; validation exits '
+         'exist with the right polarity and dominate Ok construction; counting increments (position, symbol). The floating-point arithmetic itself is not decided.',
+    ref='DESIGN.md §4 C09')
+
 NA = {
     'C11': 'numeric agreement of a tabulated distribution with the exact tail probability: quantifies over run-time floating-point values; no sound static argument in reach (DESIGN.md §6)',
     'C12': 'bounds computed probability ranges by exact tail probabilities at a granularity: run-time numerics, no structural necessary condition (DESIGN.md §6)',
